@@ -187,6 +187,13 @@ static Loaded load(const RefDef& d) {
   Loaded l;
   l.map.reset(new MessageMap(false, "", false));
   l.map->setResolver(&g_resolver);
+  {
+    // ... and one is loaded BEFORE it (a definition added after one with an ID at least as long: the bookkeeping of the
+    // longest ID per destination class must not depend on the order)
+    std::istringstream nb0("\nr,nb,longid0,,,50,b5fe,0102030405,,,UCH\n");
+    string nerr;
+    if (l.map->readFromStream(&nb0, "c09nb0", 0, false, nullptr, &nerr) != RESULT_OK) { fprintf(stderr, "c09: neighbour definition refused: %s\n", nerr.c_str()); exit(3); }
+  }
   std::istringstream is(d.text);
   l.result = l.map->readFromStream(&is, "c09", 0, false, nullptr, &l.error);
   R.transitions++;
